@@ -192,10 +192,27 @@ def gen_cases(rng, tier):
     return out
 
 
+def load_real_cases(tier, rng):
+    """state files ordered back through the REAL main process (CommandHub + load_state): records of every size the
+    command channel allows, wherever they fall in the file (a record between half the parse buffer and the channel
+    limit preceded by less than half a buffer of records is the layout a too-small buffer jams on)"""
+    out = [Case("load_real_medium_then_large", [["load_real", 163840, 60000, 150000]]),
+           Case("load_real_large_first", [["load_real", 163840, 150000, 30000, 30000]])]
+    if tier == "thorough":
+        for mx in (163840, 400000, 2000000):
+            for i in range(12):
+                lens = [int(mx * rng.choice([0.02, 0.1, 0.3, 0.37, 0.45, 0.55, 0.7, 0.9, 0.93])) for _ in range(rng.choice([2, 2, 3, 4, 6]))]
+                out.append(Case("load_real_%d_%d" % (mx, i), [["load_real", mx] + lens]))
+            out.append(Case("load_real_%d_b" % mx, [["load_real", mx, int(mx * 0.37), int(mx * 0.92)]]))
+            out.append(Case("load_real_%d_c" % mx, [["load_real", mx, int(mx * 0.45), int(mx * 0.93), int(mx * 0.45), int(mx * 0.93)]]))
+    return out
+
+
 def extra_stage(tier, rng, work):
     """size ceilings of the save / deliver paths, on the real code (no model: sizes are not modelled)"""
     import os
-    cases = [Case("limits", [["limits"]])]
+    lr = load_real_cases(tier, rng)
+    cases = [Case("limits", [["limits"]])] + lr
     outs, problems = vlib.run_harness("c05", cases, os.path.join(work, "limits"), "release", shards=1)
     viols = []
     o = outs.get("limits")
@@ -208,7 +225,14 @@ def extra_stage(tier, rng, work):
         # accepted, written, loaded, blob_ok, client_ok, state_ok, worker_ok
         if ob[0] != 1 or ob[1] != 1 or ob[4] != 1 or ob[5] != 1:
             problems.append("c05 limits probe: the large requests were not accepted / written as intended: %r" % (ob,))
-    return dict(failures=problems, viols=viols, coverage=dict(limit_probes=1))
+    for c in lr:
+        o = outs.get(c.id)
+        if o is None or o["panic"] is not None or not o["obs"] or len(o["obs"][0]) != 5:
+            problems.append("c05 %s: no observation (%s)" % (c.id, "; ".join(o["notes"]) if o else "no output"))
+            continue
+        for (vc, vt) in o["viol"]:
+            viols.append((c, vc, vt))
+    return dict(failures=problems, viols=viols, coverage=dict(limit_probes=1, real_load_state_files=len(lr)))
 
 
 def corpus_cases():
